@@ -144,3 +144,16 @@ impl<K: Ord, V> VerifMapExt<K, V> for alloc::collections::BTreeMap<K, V> {
         self.insert(k, v);
     }
 }
+
+/// Byte-loop model of `core::slice::memchr::memchr` (std's version scans a word at a time behind
+/// `align_offset`, which CBMC cannot afford). Same contract: index of the first `x` in `text`.
+pub(crate) fn model_memchr(x: u8, text: &[u8]) -> Option<usize> {
+    let mut i = 0;
+    while i < text.len() {
+        if text[i] == x {
+            return Some(i);
+        }
+        i += 1;
+    }
+    None
+}
